@@ -10,6 +10,7 @@ mod d_registry;
 mod d_hub;
 mod d_hubworld;
 mod d_misc;
+mod d_world2;
 
 pub struct Rng(pub u64);
 impl Rng {
@@ -40,6 +41,8 @@ fn driver(name: &str) -> Box<dyn Driver> {
         "calculate_delegations" => Box::new(d_registry::CalcDelegations),
         "calculate_undelegations" => Box::new(d_registry::CalcUndelegations),
         "hub_op" => Box::new(d_hubworld::HubOp),
+        "registry_remove" => Box::new(d_world2::RegistryRemove),
+        "dispatcher_swap" => Box::new(d_world2::DispatcherSwap),
         other => {
             if let Some(d) = d_hub::driver(other) { return d; }
             if let Some(d) = d_misc::driver(other) { return d; }
